@@ -96,6 +96,36 @@ def global_state_names(pkg):
     return names - _NOISE
 
 
+class _AllLines:
+    """Every line of a file (the tracer only reports executable ones)."""
+
+    def __contains__(self, n):
+        return True
+
+    def __len__(self):
+        return 1
+
+
+def all_lines(src_root, only=None):
+    """{filename: every line} for all modules of the library: a pre-emption is possible before EVERY executed line of
+    django-components (used for a few small task pairs; finds races on state that no name-based rule can know about,
+    e.g. an attribute of a shared object)."""
+    key = (src_root, "all", tuple(only or ()))
+    if key in _yield_cache:
+        return _yield_cache[key]
+    out = {}
+    pkg = os.path.join(src_root, "django_components")
+    for dirpath, _dirs, files in os.walk(pkg):
+        for fn in files:
+            if fn.endswith(".py"):
+                rel = os.path.relpath(os.path.join(dirpath, fn), pkg).replace(os.sep, "/")
+                if only and rel not in only:
+                    continue
+                out[os.path.realpath(os.path.join(dirpath, fn))] = _AllLines()
+    _yield_cache[key] = out
+    return out
+
+
 def yield_points(src_root):
     """{filename: set(line numbers)} of lines that touch process-global state of the library."""
     if src_root in _yield_cache:
